@@ -112,4 +112,24 @@ SPECS = {
     "C04": _hnd("c04"),
     "C13": _hnd("c13"),
     "C19": _hnd("c19"),
+    "C17": {
+        "coq_files": ["Generated/Params.v", "Model/IpVote.v", "Proofs/IpVote.v", "Run/IpVoteRun.v"],
+        "runner_vo": "Run/IpVoteRun.v",
+        "harness": [
+            {"component": "vote", "args": ["--part", "thr"], "quick": 1, "thorough": 1},
+            {"component": "vote", "args": ["--part", "ipvote"], "quick": 300, "thorough": 3000},
+            {"component": "vote", "args": ["--part", "service"], "quick": 200, "thorough": 2000},
+        ],
+        "trusted_base": [
+            "IEEE-754 binary64 semantics of rustc/LLVM and the CPU for the literal 0.3, the subtraction, the multiplication, f64::round and the cast (modelled exactly with integers in Model/IpVote.v and compared for every leading count up to 10^5 / 2*10^6)",
+            "the enr crate: set_udp_socket bumps the sequence number by one and re-signs (observed by the monitor: seq, verify()), std::time::Instant (real clock, bracketed), std HashMap iteration (any order: theorem scan_correct), tokio mpsc for the event stream",
+            "the connectivity state (should_count_ip_vote) and the routing-table status of the voter are inputs of the model (arbitrary booleans); the harness exercises should_count_ip_vote = true only and reads the voter's status back from the real table",
+        ],
+        "assumptions": [
+            "leading counts below 2^49 for the reading of the f64 threshold as 0.7*max rounded (the winner characterisation itself is stated with the exact threshold function and has no bound)",
+            "'announced as an event' = accepted by the bounded event channel (try_send); the harness drains it after every PONG",
+            "a PONG from a voter that is not eligible at that moment (not connected+outgoing and no more votes needed) is ignored entirely: it does not retract the voter's earlier counted vote",
+        ],
+        "explanation": "theorems over Model/IpVote.v (exact f64 threshold and its 70 % reading, order-independent scan, winner characterisation, one vote per node, change => winner + seq bump + event, fewer than minimum voters never move the record) + correspondence of IpVote (real clock, bracketed), of the f64 threshold (exhaustive table) and of the real Service PONG handling + direct monitors",
+    },
 }
